@@ -511,28 +511,28 @@ package s3mem
 //@ loop 1 exithint   xsP:    soundP(response, storedBucket.objects, it_idx(iter.inner) + 1, page.Marker, *prefix)
 //@ loop 1 exithint   xasc:   ascC(response)
 //@ loop 1 exithint   xbel:   belowC(response, storedBucket.objects, it_idx(iter.inner) + 1)
-//@ uses xsC: inv.objs inv.shape inv.after inv.count inv.soundC -hints hint.pos hint.cur hint.grow
-//@ uses xsP: inv.shape inv.after inv.soundP -hints hint.pos hint.cur hint.keepP
-//@ uses xasc: inv.objs inv.shape inv.after inv.count inv.below inv.asc -hints hint.pos hint.cur hint.grow hint.prev
-//@ uses xbel: inv.objs inv.shape inv.after inv.count inv.below -hints hint.pos hint.cur hint.grow hint.prev
-//@ uses all: inv.shape inv.compl -hints hint.done hint.pos
-//@ uses keepC: inv.shape inv.compl -hints hint.grow hint.pos
-//@ uses keepQ: inv.shape inv.compl -hints hint.keepS hint.pos
-//@ uses done: inv.shape -hints hint.keepC hint.keepQ hint.curP hint.curC hint.pos
-//@ uses soundC: inv.objs inv.shape inv.after inv.count -hints hint.pos hint.cur hint.grow hint.xsC
-//@ uses grow: inv.shape inv.soundC -hints hint.pos hint.cur
-//@ uses soundP: inv.shape inv.after -hints hint.pos hint.cur hint.keepP hint.xsP
-//@ uses compl: inv.shape -hints hint.done hint.pos
-//@ uses curP: inv.objs inv.shape inv.after inv.pset inv.last -hints hint.pos hint.cur hint.keepP
-//@ uses curC: inv.objs inv.shape inv.after -hints hint.pos hint.cur hint.grow
-//@ uses keepP: inv.shape inv.pset -hints
-//@ uses last: inv.shape inv.pset -hints hint.keepS
-//@ uses keepS: inv.shape inv.pset -hints
-//@ uses below: inv.objs inv.shape inv.after inv.count -hints hint.pos hint.cur hint.grow hint.prev
-//@ uses asc: inv.objs inv.shape inv.after inv.count inv.below -hints hint.pos hint.cur hint.grow hint.prev hint.xasc
+//@ uses xsC: inv.objs inv.shape inv.after inv.soundC -hints hint.pos hint.cur hint.grow -calls call.BucketNotFound.code call.BucketNotFound.fresh call.Match.def call.Match.out call.Match.part call.Value.val call.Value.member call.Next.step call.Next.seek call.Next.same call.Add.added call.AddPrefix.keep call.AddPrefix.new call.AddPrefix.dup call.AddPrefix.inv call.AddPrefix.own
+//@ uses xsP: inv.shape inv.after inv.soundP -hints hint.pos hint.cur hint.keepP -calls call.BucketNotFound.code call.BucketNotFound.fresh call.Match.def call.Match.out call.Match.part call.Value.val call.Value.member call.Next.step call.Next.seek call.Next.same call.Add.added call.AddPrefix.keep call.AddPrefix.new call.AddPrefix.dup call.AddPrefix.inv call.AddPrefix.own
+//@ uses xasc: inv.shape inv.after inv.below inv.asc -hints hint.pos hint.cur hint.grow hint.prev -calls call.BucketNotFound.code call.BucketNotFound.fresh call.Match.def call.Match.out call.Match.part call.Value.val call.Value.member call.Next.step call.Next.seek call.Next.same call.Add.added call.AddPrefix.keep call.AddPrefix.new call.AddPrefix.dup call.AddPrefix.inv call.AddPrefix.own
+//@ uses xbel: inv.shape inv.after inv.below -hints hint.pos hint.cur hint.grow hint.prev -calls call.BucketNotFound.code call.BucketNotFound.fresh call.Match.def call.Match.out call.Match.part call.Value.val call.Value.member call.Next.step call.Next.seek call.Next.same call.Add.added call.AddPrefix.keep call.AddPrefix.new call.AddPrefix.dup call.AddPrefix.inv call.AddPrefix.own
+//@ uses all: inv.shape inv.compl -hints hint.done hint.pos -calls call.BucketNotFound.code call.BucketNotFound.fresh call.Match.def call.Match.out call.Match.part call.Value.val call.Value.member call.Next.step call.Next.seek call.Next.same call.Add.added call.AddPrefix.keep call.AddPrefix.new call.AddPrefix.dup call.AddPrefix.inv call.AddPrefix.own
+//@ uses keepC: inv.shape inv.compl -hints hint.grow hint.pos -calls call.BucketNotFound.code call.BucketNotFound.fresh call.Match.def call.Match.out call.Match.part call.Value.val call.Value.member call.Next.step call.Next.seek call.Next.same call.Add.added call.AddPrefix.keep call.AddPrefix.new call.AddPrefix.dup call.AddPrefix.inv call.AddPrefix.own
+//@ uses keepQ: inv.shape inv.compl -hints hint.keepS hint.pos -calls call.BucketNotFound.code call.BucketNotFound.fresh call.Match.def call.Match.out call.Match.part call.Value.val call.Value.member call.Next.step call.Next.seek call.Next.same call.Add.added call.AddPrefix.keep call.AddPrefix.new call.AddPrefix.dup call.AddPrefix.inv call.AddPrefix.own
+//@ uses done: inv.shape -hints hint.keepC hint.keepQ hint.curP hint.curC hint.pos -calls call.BucketNotFound.code call.BucketNotFound.fresh call.Match.def call.Match.out call.Match.part call.Value.val call.Value.member call.Next.step call.Next.seek call.Next.same call.Add.added call.AddPrefix.keep call.AddPrefix.new call.AddPrefix.dup call.AddPrefix.inv call.AddPrefix.own
+//@ uses soundC: inv.objs inv.shape inv.after -hints hint.pos hint.cur hint.grow hint.xsC -calls call.BucketNotFound.code call.BucketNotFound.fresh call.Match.def call.Match.out call.Match.part call.Value.val call.Value.member call.Next.step call.Next.seek call.Next.same call.Add.added call.AddPrefix.keep call.AddPrefix.new call.AddPrefix.dup call.AddPrefix.inv call.AddPrefix.own
+//@ uses grow: inv.shape inv.soundC -hints hint.pos hint.cur -calls call.BucketNotFound.code call.BucketNotFound.fresh call.Match.def call.Match.out call.Match.part call.Value.val call.Value.member call.Next.step call.Next.seek call.Next.same call.Add.added call.AddPrefix.keep call.AddPrefix.new call.AddPrefix.dup call.AddPrefix.inv call.AddPrefix.own
+//@ uses soundP: inv.shape inv.after -hints hint.pos hint.cur hint.keepP hint.xsP -calls call.BucketNotFound.code call.BucketNotFound.fresh call.Match.def call.Match.out call.Match.part call.Value.val call.Value.member call.Next.step call.Next.seek call.Next.same call.Add.added call.AddPrefix.keep call.AddPrefix.new call.AddPrefix.dup call.AddPrefix.inv call.AddPrefix.own
+//@ uses compl: inv.shape -hints hint.done hint.pos -calls call.BucketNotFound.code call.BucketNotFound.fresh call.Match.def call.Match.out call.Match.part call.Value.val call.Value.member call.Next.step call.Next.seek call.Next.same call.Add.added call.AddPrefix.keep call.AddPrefix.new call.AddPrefix.dup call.AddPrefix.inv call.AddPrefix.own
+//@ uses curP: inv.objs inv.shape inv.after inv.pset inv.last -hints hint.pos hint.cur hint.keepP -calls call.BucketNotFound.code call.BucketNotFound.fresh call.Match.def call.Match.out call.Match.part call.Value.val call.Value.member call.Next.step call.Next.seek call.Next.same call.Add.added call.AddPrefix.keep call.AddPrefix.new call.AddPrefix.dup call.AddPrefix.inv call.AddPrefix.own
+//@ uses curC: inv.objs inv.shape inv.after -hints hint.pos hint.cur hint.grow -calls call.BucketNotFound.code call.BucketNotFound.fresh call.Match.def call.Match.out call.Match.part call.Value.val call.Value.member call.Next.step call.Next.seek call.Next.same call.Add.added call.AddPrefix.keep call.AddPrefix.new call.AddPrefix.dup call.AddPrefix.inv call.AddPrefix.own
+//@ uses keepP: inv.shape inv.pset -hints -calls call.BucketNotFound.code call.BucketNotFound.fresh call.Match.def call.Match.out call.Match.part call.Value.val call.Value.member call.Next.step call.Next.seek call.Next.same call.Add.added call.AddPrefix.keep call.AddPrefix.new call.AddPrefix.dup call.AddPrefix.inv call.AddPrefix.own
+//@ uses last: inv.shape inv.pset -hints hint.keepS -calls call.BucketNotFound.code call.BucketNotFound.fresh call.Match.def call.Match.out call.Match.part call.Value.val call.Value.member call.Next.step call.Next.seek call.Next.same call.Add.added call.AddPrefix.keep call.AddPrefix.new call.AddPrefix.dup call.AddPrefix.inv call.AddPrefix.own
+//@ uses keepS: inv.shape inv.pset -hints -calls call.BucketNotFound.code call.BucketNotFound.fresh call.Match.def call.Match.out call.Match.part call.Value.val call.Value.member call.Next.step call.Next.seek call.Next.same call.Add.added call.AddPrefix.keep call.AddPrefix.new call.AddPrefix.dup call.AddPrefix.inv call.AddPrefix.own
+//@ uses below: inv.shape inv.after -hints hint.pos hint.cur hint.grow hint.prev -calls call.BucketNotFound.code call.BucketNotFound.fresh call.Match.def call.Match.out call.Match.part call.Value.val call.Value.member call.Next.step call.Next.seek call.Next.same call.Add.added call.AddPrefix.keep call.AddPrefix.new call.AddPrefix.dup call.AddPrefix.inv call.AddPrefix.own
+//@ uses asc: inv.shape inv.after inv.below -hints hint.pos hint.cur hint.grow hint.prev hint.xasc -calls call.BucketNotFound.code call.BucketNotFound.fresh call.Match.def call.Match.out call.Match.part call.Value.val call.Value.member call.Next.step call.Next.seek call.Next.same call.Add.added call.AddPrefix.keep call.AddPrefix.new call.AddPrefix.dup call.AddPrefix.inv call.AddPrefix.own
 //@ uses skip: inv.objs inv.shape
-//@ uses pset: inv.objs inv.shape -hints
-//@ uses count: inv.objs inv.shape -hints hint.pos hint.grow hint.keepP
+//@ uses pset: inv.objs inv.shape -hints -calls call.BucketNotFound.code call.BucketNotFound.fresh call.Match.def call.Match.out call.Match.part call.Value.val call.Value.member call.Next.step call.Next.seek call.Next.same call.Add.added call.AddPrefix.keep call.AddPrefix.new call.AddPrefix.dup call.AddPrefix.inv call.AddPrefix.own
+//@ uses count: inv.objs inv.shape -hints hint.pos hint.grow hint.keepP -calls call.BucketNotFound.code call.BucketNotFound.fresh call.Match.def call.Match.out call.Match.part call.Value.val call.Value.member call.Next.step call.Next.seek call.Next.same call.Add.added call.AddPrefix.keep call.AddPrefix.new call.AddPrefix.dup call.AddPrefix.inv call.AddPrefix.own
 //@ uses objs: inv.shape -hints
 //@ uses own: inv.shape -hints
 //@ uses same: inv.shape inv.own -hints
@@ -548,8 +548,8 @@ package s3mem
 //@                             inr(storedBucket.objects, it_idx(iter.inner) - 1, page.Marker))
 //@ rethint           truncC: imp(ret1 == nil && ret0 != nil && ret0.IsTruncated, complete(ret0, storedBucket.objects, it_idx(iter.inner), page.Marker, *prefix))
 //@ rethint           truncB: imp(ret1 == nil && ret0 != nil && ret0.IsTruncated, all(j, 0, len(ret0.Contents), ret0.Contents[j].Key <= ret0.NextMarker))
-//@ uses truncC: inv.shape -hints hint.done hint.pos
-//@ uses truncB: inv.objs inv.shape inv.after inv.count inv.below -hints hint.pos hint.cur hint.grow hint.prev hint.xbel
+//@ uses truncC: inv.shape -hints hint.done hint.pos -calls call.BucketNotFound.code call.BucketNotFound.fresh call.Match.def call.Match.out call.Match.part call.Value.val call.Value.member call.Next.step call.Next.seek call.Next.same call.Add.added call.AddPrefix.keep call.AddPrefix.new call.AddPrefix.dup call.AddPrefix.inv call.AddPrefix.own
+//@ uses truncB: inv.shape inv.after inv.below -hints hint.pos hint.cur hint.grow hint.prev hint.xbel -calls call.BucketNotFound.code call.BucketNotFound.fresh call.Match.def call.Match.out call.Match.part call.Value.val call.Value.member call.Next.step call.Next.seek call.Next.same call.Add.added call.AddPrefix.keep call.AddPrefix.new call.AddPrefix.dup call.AddPrefix.inv call.AddPrefix.own
 //@ ensures [C04]     next:   imp(ret1 == nil && ret0.IsTruncated, page.MaxKeys > 0 &&
 //@                             ex(v, 0, sl_len(L), ret0.NextMarker == ks(L, v) && inr(L, v, page.Marker) && complete(ret0, L, v + 1, page.Marker, PF) &&
 //@                               all(j, 0, len(ret0.Contents), ret0.Contents[j].Key <= ret0.NextMarker)))
